@@ -62,7 +62,9 @@ package processorqueue
 //@   prop C06
 //@   mode seq
 //@   requires watchOK(watcher) && req != nil && allocated(req)
-//@   modifies mapof(watcher.requests), mapof(watcher.requestsExpireAt), opof(watcher.requestCount), now
+//@   modifies mapof(watcher.requests), mapof(watcher.requestsExpireAt), opof(watcher.requestCount), gWatchedAt, now
+//@   on return do gWatchedAt[req.apiStream.GetID()] = now()
+//@   ensures[watch-time] gWatchedAt[req.apiStream.GetID()] == now() && forall(o, string, o != req.apiStream.GetID() ==> gWatchedAt[o] == old(gWatchedAt[o]))
 //@   ensures[registered] in(req.apiStream.GetID(), watcher.requests) && watcher.requests[req.apiStream.GetID()] == req && watcher.requestsExpireAt[req.apiStream.GetID()] == req.expireAt
 //@   ensures[counted]    atomicval(watcher.requestCount) == old(atomicval(watcher.requestCount)) + 1
 //@   ensures[inv]        watchOK(watcher)
@@ -88,6 +90,7 @@ package processorqueue
 //@ ghost var gLastAllowed bool                  // answer of the latest quota.Allowed
 //@ ghost var gEnqStamp gmap[string]int64        // arrival stamp the shared queue orders an id by
 //@ ghost var gEnqVerdict bool                   // what the latest enqueue answered (the verdict of its request)
+//@ ghost var gWatchedAt gmap[string]int64       // when the watcher (the processor's own table of waiters) learned of an id
 //@ ghost field Request.gAdmitted bool           // the attached quota admitted this request
 
 //@ iface ResourceManagementI.GetQuota
@@ -127,7 +130,9 @@ package processorqueue
 //@   prop C06
 //@   mode seq
 //@   requires p.requestsWatcher != nil && watchOK(p.requestsWatcher) && req != nil && allocated(req)
-//@   modifies mapof(p.requestsWatcher.requests), mapof(p.requestsWatcher.requestsExpireAt), opof(p.requestsWatcher.requestCount), gEnqStamp, now
+//@   modifies mapof(p.requestsWatcher.requests), mapof(p.requestsWatcher.requestsExpireAt), opof(p.requestsWatcher.requestCount), gEnqStamp, gWatchedAt, now
+// a background round drops a popped id its table of waiters does not know: the request is entered there BEFORE the shared queue shows it
+//@   ensures[known-to-the-watcher-before-the-queue-shows-it] result ==> gWatchedAt[req.apiStream.GetID()] <= gEnqStamp[req.apiStream.GetID()]
 //@   ensures[size] result ==> old(atomicval(p.requestsWatcher.requestCount)) < p.maxQueueSize
 //@   ensures[full-rejected] old(atomicval(p.requestsWatcher.requestCount)) >= p.maxQueueSize ==> !result && atomicval(p.requestsWatcher.requestCount) == old(atomicval(p.requestsWatcher.requestCount))
 //@   ensures[registered] result ==> in(req.apiStream.GetID(), p.requestsWatcher.requests) && p.requestsWatcher.requests[req.apiStream.GetID()] == req
@@ -182,7 +187,7 @@ package processorqueue
 //@   mode seq
 //@   requires p.requestsWatcher != nil && watchOK(p.requestsWatcher)
 //@   allocates Request
-//@   modifies mapof(p.requestsWatcher.requests), mapof(p.requestsWatcher.requestsExpireAt), opof(p.requestsWatcher.requestCount), gEnqStamp, gEnqVerdict, now
+//@   modifies mapof(p.requestsWatcher.requests), mapof(p.requestsWatcher.requestsExpireAt), opof(p.requestsWatcher.requestCount), gEnqStamp, gEnqVerdict, gWatchedAt, now
 //@   on return do gEnqVerdict = result
 //@   spawn modifies mapof(p.requestsWatcher.requests), mapof(p.requestsWatcher.requestsExpireAt), opof(p.requestsWatcher.requestCount)
 // the clean-up goroutine gives a slot back (RemoveFromWatchList decrements the count unconditionally): it may only be started for a request that took one
@@ -197,7 +202,7 @@ package processorqueue
 //@   mode seq
 //@   requires p.requestsWatcher != nil && watchOK(p.requestsWatcher)
 //@   allocates Request
-//@   modifies mapof(p.requestsWatcher.requests), mapof(p.requestsWatcher.requestsExpireAt), opof(p.requestsWatcher.requestCount), gEnqStamp, gEnqVerdict, now
+//@   modifies mapof(p.requestsWatcher.requests), mapof(p.requestsWatcher.requestsExpireAt), opof(p.requestsWatcher.requestCount), gEnqStamp, gEnqVerdict, gWatchedAt, now
 //@   ensures[allowed-or-blocked] result1 == nil && (result0.Name == "allowed" || result0.Name == "blocked")
 //@   ensures[allowed-iff-verdict] result0.Name == "allowed" <==> gEnqVerdict
 
